@@ -327,3 +327,8 @@ def m_sym_hash_order(ctx, cty, a):
     """0 = canonical order, 1 = forward/reverse, 2 = all permutations (up to perm_limit entries)"""
     ctx.opts["hash_order"] = {0: "fixed", 1: "two", 2: "all"}[a[0]]
     return unit()
+
+
+@model("verif_harness::sym::debug_str", "sym::debug_str")
+def m_sym_debug_str(ctx, cty, a):
+    return unit()
